@@ -1,12 +1,12 @@
 """C10 - LLL / HNF: structural clauses (E6 mirroring, E2 exact nearest-integer quotient)."""
-import e6_mirror, e2_float
+import e6_mirror, e2_float, e14_homog
 
 LEVEL = 'other'
 EXPLANATION = ('Static analysis of yui_matrix::dense::lll on MIR: (M2) LLLData::{swap, mul_row, add_row_to} and the final row reversal of '
                'the HNF mirror every row operation on the basis into P (same operation) and P^-1 (inverse operation on columns: '
                'swap_cols, mul_col by r^-1, add_col_to(k,i,-r)); (M1) no other code mutates the basis; (E2) no float on any data/control '
                'path of the module, in particular the size-reduction quotient div_round (an inexact quotient beyond 2^53 voids size '
-               'reduction and termination). Necessary for H = P*A, P*P^-1 = I on every input. NOT decided: echelon form, Lovasz '
+               'reduction and termination). (E14) every exact update formula of the integral Gram-Schmidt state (swap, add_row_to, size-reduction quotient, Lovasz test) is homogeneous under scaling of the basis - dimensional analysis with deg det[j] = deg lambda[(i,j)] = 2(j+1). Necessary for H = P*A, P*P^-1 = I and for the maintained state being the Gram-Schmidt data on every input. NOT decided: echelon form, Lovasz '
                'condition, size-reducedness, termination.')
 TRUSTED = ['rustc MIR', 'Mat row/column operations implement the named elementary operations']
 
@@ -22,4 +22,6 @@ def run(ctx, rep):
     rep.rule('E6', e6_mirror.__doc__.strip().split('\n')[0])
     rep.rule('E2', e2_float.__doc__.strip().split('\n')[0])
     e6_mirror.run_lll(facts, rep)
+    rep.rule('E14', e14_homog.__doc__.strip().split('\n')[0])
+    e14_homog.run(facts, rep)
     e2_float.apply(facts, rep, scope, 'C10', floor_scope=35)
